@@ -90,6 +90,24 @@ def label(v, depth=0):
     return k
 
 
+def _unsigned_norm(r):
+    """comparisons of an unsigned quantity with 0 / 1 that say "is zero" / "is not zero" get one spelling"""
+    a, rel, b, nm = r
+    if b == ("c", 1) and rel == "Ge":
+        return (a, "Ne", ("c", 0), None)
+    if b == ("c", 1) and rel == "Lt":
+        return (a, "Eq", ("c", 0), None)
+    if b == ("c", 0) and rel == "Gt" and _is_unsigned_expr(a):
+        return (a, "Ne", ("c", 0), None)
+    if b == ("c", 0) and rel == "Le" and _is_unsigned_expr(a):
+        return (a, "Eq", ("c", 0), None)
+    return r
+
+
+def _is_unsigned_expr(a):
+    return isinstance(a, tuple) and bool(a) and a[0] in ("cparam", "len", "sizeof", "alignof", "unit", "pad")
+
+
 def norm_cond(c):
     """-> (lhs, rel, rhs, rhs_name) or ('opaque', c)"""
     k = c[0]
@@ -97,7 +115,10 @@ def norm_cond(c):
         return (c[1], "Eq", c[2], c[3])
     if k == "else":
         # none of the listed constants
-        return (c[1], "NotIn", tuple((n[2], n[3]) for n in c[2] if n[0] == "eq"), None)
+        eqs = [n for n in c[2] if n[0] == "eq"]
+        if len(eqs) == 1 and len(c[2]) == 1:
+            return _unsigned_norm((c[1], "Ne", eqs[0][2], eqs[0][3]))       # `match x { k => .., _ => .. }` is `x != k`
+        return (c[1], "NotIn", tuple((n[2], n[3]) for n in eqs), None)
     if k in ("true", "false"):
         v = c[1]
         pol = k == "true"
@@ -111,7 +132,7 @@ def norm_cond(c):
             if mentions_atom(b) and not mentions_atom(a):
                 a, b = b, a
                 rel = FLIP[rel]
-            return (a, rel, b, None)
+            return _unsigned_norm((a, rel, b, None))
         return (v, "Truth" if pol else "Falsity", None, None)
     return ("opaque", c)
 
